@@ -1184,6 +1184,35 @@ def native_f16_job(job: dict) -> dict:
     return res
 
 
+WRAP_ID = 'F-SETUXX-OFFSET-WRAP'
+
+
+def ensure_known_loaded(chk: core.Check) -> None:
+    """known_findings.json is merged from known_findings.d/ by the lead at development time; until then read the fragment (read-only)"""
+    frag = os.path.join(core.VERIF, 'known_findings.d', 'C14.json')
+    try:
+        for e in json.load(open(frag))['findings']:
+            if chk.known_entry(e['id']) is None:
+                chk.known.append(e)
+    except Exception:
+        pass
+
+
+def probe_offset_wrap(chk: core.Check, all_targets: dict) -> dict:
+    """runs the witness of F-SETUXX-OFFSET-WRAP in a process of its own on one C and one C++ build.
+    reproduces = anything but `-3 <buffer unchanged>` (a crash, or a success code)"""
+    e = chk.known_entry(WRAP_ID)
+    line = (e or {}).get('witness', {}).get('line', 'su 0000 2 18446744073709551608 255 16')
+    out = {}
+    for name in ('c_any_noasserts', 'c_little_noasserts', 'cpp_cpp14_noasserts'):
+        t = all_targets.get(name)
+        if not t:
+            continue
+        o, err, rc = _run_exe(t.get('cmd') or [t['exe']], line + '\n', env=t.get('env'))
+        out[name] = 'fixed' if (rc == 0 and o == ['-3 0000']) else ('reproduces: ' + (o[0] if o else 'crash (exit %s)' % rc))
+    return out
+
+
 def case_weight(b: dict) -> tuple:
     l = b.get('line', '')
     return (len(l), l)
@@ -1226,6 +1255,14 @@ def main(chk: core.Check, replay: typing.Optional[str] = None) -> int:
     for e in errors + cpp_errors + py_errors:
         broken.append('implementation build: ' + e[:600])
 
+    # known finding: offset wrap in the capacity check of SetUxx (probed on the real builds; both states are fine)
+    ensure_known_loaded(chk)
+    wrap = probe_offset_wrap(chk, dict(targets, **cpp_targets))
+    wrap_live = any(v.startswith('reproduces') for v in wrap.values())
+    if wrap_live and chk.is_known(WRAP_ID):
+        chk.report_known(WRAP_ID)
+    elif wrap_live:
+        broken.append('offset wrap of SetUxx reproduces but %s is not listed as known' % WRAP_ID)
     timing['builds_s'] = round(time.time() - t0 - timing['coq_s'], 1)
     t1 = time.time()
     # 3. cases
@@ -1322,6 +1359,7 @@ def main(chk: core.Check, replay: typing.Optional[str] = None) -> int:
                          'copy_strata_src_mod8_dst_mod8_len_mod8': '%d of 512' % len(strata),
                          'float16_pack_C_vs_struct_e': f16_vs_struct,
                          'float16_native_sweep_no_model': native,
+                         'offset_wrap_probe': wrap,
                          'float16_rounding_rules': 'C/C++ nunavutFloat16Pack: nearest, ties away from zero (proved: f16_rounding_rule); '
                                                    'Python struct/NumPy: nearest, ties to even; both are allowed by C14 (nearest or adjacent)'},
     })
